@@ -52,9 +52,10 @@ void g_glue(void)
     __CPROVER_assert(vp_tr_n == (tracing ? 1 : 0), "[C17] POST mock_func.one_trace_record_iff_a_tracer_is_installed_whatever_the_outcome");
     if (tracing) __CPROVER_assert(vp_tr[0].tracer == &the_tracer_obj && vp_tr[0].line == 77 && vp_tr[0].file == the_matcher.loc.file, "[C17] POST mock_func.the_record_goes_to_the_tracer_with_the_candidate_s_location");
     if (tracing) {
-      int thrown = g_run_throws ? g_run_throws : g_ret_throws; const char *lit = vp_tr[0].msg.lit;   /* last library literal of the record */
-      if (VP_EXC_IS_STD(thrown)) __CPROVER_assert(lit != 0 && lit[0] == 't' && lit[6] == 'e', "[C17] POST mock_func.a_std_exception_from_the_actions_or_the_return_is_traced_with_what");
-      if (thrown == VP_EXC_USER_OTHER) __CPROVER_assert(lit != 0 && lit[0] == 't' && lit[6] == 'u', "[C17] POST mock_func.any_other_exception_is_traced_as_unknown");
+      int thrown = g_run_throws ? g_run_throws : g_ret_throws; const struct vp_string *m = &vp_tr[0].msg; _Bool what = 0;
+      for (int k = 0; k < VP_TOK_CAP; k++) if (k < m->n && m->t[k].kind == VP_T_CSTR && m->t[k].p == (void *)&vp_stdexc_obj) what = 1;
+      if (VP_EXC_IS_STD(thrown)) __CPROVER_assert(!m->overflow && what, "[C17] POST mock_func.a_std_exception_from_the_actions_or_the_return_is_traced_with_what");
+      if (thrown == VP_EXC_USER_OTHER) __CPROVER_assert(!what && vp_lit_has(m->lit, "unknown"), "[C17] POST mock_func.any_other_exception_is_traced_as_unknown");
     }
   }
   __CPROVER_assert(vp_rep_n == (found ? 0 : 1) && !vp_terminated, "[C01,C15] POST mock_func.reports_nothing_itself_when_a_candidate_exists");
